@@ -100,6 +100,14 @@ func (c *Config) calculateCacheKey() string {
 	digest.Write([]byte{0})
 	digest.Write(stringx.ToBytes(strings.Join(c.Scopes, " ")))
 
+	// an entry is valid for the time configured for the one who stored it, and
+	// must not be reused with another cache ttl configured
+	digest.Write([]byte{0})
+
+	if c.TTL != nil {
+		digest.Write(stringx.ToBytes(c.TTL.String()))
+	}
+
 	return hex.EncodeToString(digest.Sum(nil))
 }
 
